@@ -59,6 +59,7 @@ class TermModel:
         self._buf = ""
         self.autowrap = True          # DECAWM
         self.other_modes = set()      # further DEC private modes that are switched on
+        self.last_graphic = None      # what REP (CSI Ps b) repeats; any control function forgets it
         self.el_in_pending = 0        # probe: EL executed while pending wrap
         self.wraps = 0                # probe: autowrap happened
 
@@ -176,6 +177,7 @@ class TermModel:
             self.r -= 1
 
     def _print(self, ch):
+        self.last_graphic = ch
         if self.pending:
             self.wraps += 1
             self.c = 0
@@ -192,6 +194,7 @@ class TermModel:
             self.c += 1
 
     def _c0(self, ch):
+        self.last_graphic = None
         if ch == "\n" or ch == "\x0b" or ch == "\x0c":
             if self.onlcr and ch == "\n":
                 self.c = 0
@@ -251,6 +254,8 @@ class TermModel:
             line[i] = cell
 
     def _csi(self, params, final):
+        if final != "b":
+            self.last_graphic = None
         private = ""
         if params and params[0] in "?<=>":
             private, params = params[0], params[1:]
@@ -413,6 +418,12 @@ class TermModel:
         elif final == "X":
             self._erase_cells(self.r, self.c, self.c + p(0, 1))
             self.pending = False
+        elif final == "b":
+            # REP: repeat the preceding graphic character (terminfo `rep`; xterm: only right after a printed character)
+            if self.last_graphic is not None:
+                for _ in range(min(p(0, 1), 65535)):
+                    self._print(self.last_graphic)
+            return
         elif final == "S":
             self._scroll_up(min(p(0, 1), self.h))
         elif final == "T":
